@@ -171,6 +171,16 @@ def run(chk):
             impl.quiet(b.fit, X)                    # the same object fitted again with the same data
             if not np.array_equal(np.array(b.matrix_representation()), full):
                 chk.violation("impl", "rp-refit-not-repeatable", "refitting the same RandomProjection object (fixed random_state) changes the modes", case)
+            # ... and on OTHER data of the same shape: inverses must belong to the new modes
+            X3 = X + rng.integers(-12, 13, size=X.shape) / 2.0
+            impl.quiet(b.fit, X3)
+            full3 = np.array(b.matrix_representation())
+            for k3 in sorted({1, avail}):
+                M3, I3 = full3[:, :k3], np.array(b.matrix_inverse(n_basis_modes=k3))
+                c3 = float(np.linalg.cond(M3))
+                if np.linalg.matrix_rank(M3) == k3 and c3 < 1e9 and float(np.max(np.abs(I3 @ M3 - np.eye(k3)))) > 1e-12 * c3 + 1e-13:
+                    chk.violation("impl", "pinv-not-left-inverse", f"RandomProjection refitted on other data: matrix_inverse({k3}) is not a left inverse of the new modes", {**case, "X3": X3.tolist(), "k": k3})
+            chk.count("rp_refit_other_data")
         else:
             if not np.array_equal(full, Uc[:, :nb]):
                 chk.violation("impl", "custom-not-prefix", "Custom basis is not the first n_basis_modes columns of the supplied matrix", case)
